@@ -37,7 +37,7 @@ HERE = Path(__file__).resolve().parent
 VERIF = HERE.parent
 LEAN = VERIF / "lean"
 RESULTS = HERE / "modelmutants_results.json"
-DEFAULT_WORK = Path(os.environ.get("MM_WORK", VERIF.parent / "work"))
+DEFAULT_WORK = Path(os.environ.get("MM_WORK", "/tmp/qverif-mutants"))
 PY = "/venv/bin/python"
 
 
@@ -82,6 +82,31 @@ MUTANTS = [
       "if moving.contains i && !(constr && isFixed a i) then",
       "if moving.contains i && !(isFixed a i) then",
       ["C11", "C03"], "set_positions: FixAtoms honoured even with apply_constraints=False (flag dropped)"),
+    # second pass: run boundaries (userEdit / newRun / validate) and the pre-selected species of another size
+    M("machine-useredit-cell-ignored", "Machine", "QModel/Machine.lean",
+      "{ s with atoms := { s.atoms with rows := rows, cell := newCell.getD s.atoms.cell } }",
+      "{ s with atoms := { s.atoms with rows := rows, cell := s.atoms.cell } }",
+      ["C03"], "between two run() calls: the user's atoms.set_cell(...) is lost (only the new positions are taken over)"),
+    M("machine-newrun-skips-validate", "Machine", "QModel/Machine.lean",
+      "  validate sim (userEdit s newPos newCell)",
+      "  userEdit s newPos newCell",
+      ["C03"], "the next run() does not call validate_simulation(): last_positions/last_cell stay those of the old run"),
+    M("machine-validate-isobaric-forgets-cell", "Machine", "QModel/Machine.lean",
+      "| .isobaric => { s with ctx := { s.ctx with lastPos := positions s.atoms.rows, lastCell := s.atoms.cell } }",
+      "| .isobaric => { s with ctx := { s.ctx with lastPos := positions s.atoms.rows } }",
+      ["C03"], "Isobaric.validate_simulation remembers the positions but not the cell"),
+    M("machine-validate-hamiltonian-forgets-momenta", "Machine", "QModel/Machine.lean",
+      "| .hamiltonian => { s with ctx := { s.ctx with lastPos := positions s.atoms.rows, lastMom := momenta s.atoms.rows } }",
+      "| .hamiltonian => { s with ctx := { s.ctx with lastPos := positions s.atoms.rows } }",
+      ["C03"], "HamiltonianCanonical.validate_simulation remembers the positions but not the momenta"),
+    M("machine-added-indices-from-template-size", "Machine", "QModel/Machine.lean",
+      "  let moving := addMoving new s.atoms.rows.length\n  let res :=",
+      "  let moving := addMoving s.ctx.template s.atoms.rows.length\n  let res :=",
+      ["C05"], "attempt_addition: the indices of the added rows are counted with the size of exchange_atoms, not of to_add_atoms"),
+    M("machineio-addtwice-single-template", "MachineIO", "QModel/MachineIO.lean",
+      "{ s.obj r with toAdd := some (s.ctx.template ++ s.ctx.template) }) ps",
+      "{ s.obj r with toAdd := some s.ctx.template }) ps",
+      ["C05"], "a pre-selected to_add_atoms of another size than exchange_atoms is replaced by the template (size ignored)"),
 
     # ---- Calc / CalcAlias (C04)
     M("calc-grand-revert-keeps-snapshot", "Calc", "QModel/Calc.lean",
@@ -100,6 +125,23 @@ MUTANTS = [
       "if fixed then .own (deref buf r) else r",
       "if fixed then r else .own (deref buf r)",
       ["C04"], "detach_results: copies when NOT fixed and aliases when fixed (wrong branch)"),
+    # second pass: result-array ownership
+    M("calcalias-inplace-hands-out-fresh-array", "CalcAlias", "QModel/CalcAlias.lean",
+      "else if inplace then { x with buf := forcesOf a, ref := some .buffer }",
+      "else if inplace then { x with buf := forcesOf a, ref := some (.own (forcesOf a)) }",
+      ["C04"], "aliasAfter: an in-place calculator (EMT) modelled as handing out a fresh array with every calculation"),
+    M("calcalias-calculation-overwrites-last-ref", "CalcAlias", "QModel/CalcAlias.lean",
+      "  else { x with ref := some (.own (forcesOf a)) }",
+      "  else { x with ref := some (.own (forcesOf a)), lastRef := some (.own (forcesOf a)) }",
+      ["C04"], "aliasAfter: every calculation also replaces what context.last_results['forces'] refers to"),
+    M("calcalias-accept-keeps-old-last-ref", "CalcAlias", "QModel/CalcAlias.lean",
+      "(r.1, { cs := r.2, x := { x2 with ref := ref, lastRef := ref } })",
+      "(r.1, { cs := r.2, x := { x2 with ref := ref } })",
+      ["C04"], "atrial: an accepted trial does not update last_results['forces'] (save_state forgets the arrays)"),
+    M("calcalias-validate-forgets-last-ref", "CalcAlias", "QModel/CalcAlias.lean",
+      "{ cs := cvalidate sim s.cs, x := { x1 with ref := r, lastRef := r } }",
+      "{ cs := cvalidate sim s.cs, x := { x1 with ref := r } }",
+      ["C04"], "avalidate: validate_simulation() does not remember the result arrays (last_results['forces'] stays unset)"),
 
     # ---- Criteria (C02; the C01 theorems are about the same definitions)
     M("crit-accept-le", "Criteria", "QModel/Criteria.lean",
@@ -134,6 +176,10 @@ MUTANTS = [
       "| k + 1, t :: ts, c :: cs => if c then some t else moveLoop k ts cs",
       "| k + 1, t :: ts, c :: cs => if c then some t else moveLoop k (t :: ts.tail) cs",
       ["C10"], "retry loop: the translation list is not advanced in step with the attempts (second attempt's draw skipped)"),
+    M("ops-moveloop-keeps-last-vetoed-attempt", "Ops", "QModel/Ops.lean",
+      "| k + 1, t :: ts, c :: cs => if c then some t else moveLoop k ts cs",
+      "| k + 1, t :: ts, c :: cs => if c then some t else if k = 0 then some t else moveLoop k ts cs",
+      ["C10"], "retry loop: after max_attempts vetoes the last trial displacement is kept instead of 'move failed'"),
     M("ops-sphere-cos-range", "Ops", "QModel/Ops.lean",
       "let c := uniform (-Num.one) Num.one u2",
       "let c := uniform Num.zero Num.one u2",
@@ -208,6 +254,15 @@ MUTANTS = [
       "execStmt (importMod fuel g) m s acc) (st.enter m)",
       "execStmt (importMod fuel g) m s acc) st",
       ["C08"], "the module is not put into sys.modules before its body runs"),
+    # second pass: the registry after `import m; import quansino.mc`
+    M("pyimport-registered-ignores-later-imports", "PyImport", "QModel/PyImport.lean",
+      "(first : Chain) (then_ : List Chain) : List Nat :=\n  match (first :: then_).foldlM",
+      "(first : Chain) (then_ : List Chain) : List Nat :=\n  match [first].foldlM",
+      ["C08"], "registeredAfter: only the module imported FIRST counts, the following `import quansino.mc` is ignored"),
+    M("pyimport-finish-never-marks-loaded", "PyImport", "QModel/PyImport.lean",
+      "{ s with mods := s.mods.map (fun p => if p.1 == m then (p.1, true) else p) }",
+      "{ s with mods := s.mods.map (fun p => if p.1 == m then (p.1, p.2) else p) }",
+      ["C08"], "a module whose body has finished is never marked as loaded (no registration statement counts as run)"),
 
     # ---- Constraints / FixRot (C12)
     M("constr-fixatoms-momenta-untouched", "Constraints", "QModel/Constraints.lean",
@@ -222,6 +277,15 @@ MUTANTS = [
       "else { s with q := s.lastQ }  ",
       "else { s with q := r.2 }  ",
       ["C12"], "rejected displacement trial keeps the trial positions (revert_state forgotten)"),
+    # second pass: ForceBias with the driver's own mass table
+    M("constr-fb-momenta-from-atom-masses", "Constraints", "QModel/Constraints.lean",
+      "let p' := Tab.get (setMomenta c true s.q (fun i k => shaped i k * disp i k))",
+      "let p' := Tab.get (setMomenta c true s.q (fun i k => m i * disp i k))",
+      ["C12"], "ForceBias.step: momenta set from the ATOMS' masses instead of the driver's shaped_masses table"),
+    M("constr-fb-divides-by-atom-masses", "Constraints", "QModel/Constraints.lean",
+      "(fun i k => s.q i k + p' i k / shaped i k))",
+      "(fun i k => s.q i k + p' i k / m i))",
+      ["C12"], "ForceBias.step: corrected displacement = momenta / atoms' masses instead of / shaped_masses"),
     M("fixrot-correction-sign", "FixRot", "QModel/FixRot.lean",
       "Arr.tab fun i k => p i k - cross w.get (r i) k * m i",
       "Arr.tab fun i k => p i k + cross w.get (r i) k * m i",
@@ -290,6 +354,15 @@ MUTANTS = [
       "| .w => { disk := [], pending := [], pos := 0, append := false }",
       "| .w => { disk := existing, pending := [], pos := 0, append := false }",
       ["C16"], "open(path, 'w') does not empty the file"),
+    # second pass: the `open=` token (disk right after open)
+    M("files-open-a-drops-content", "Files", "QModel/Files.lean",
+      "| .a => { disk := existing, pending := [], pos := existing.length, append := true }",
+      "| .a => { disk := [], pending := [], pos := 0, append := true }",
+      ["C16"], "open(path, 'a') starts from an empty file (existing content lost)"),
+    M("filesio-open-token-echoes-input", "FilesIO", "QModel/FilesIO.lean",
+      "(\"open=\" ++ hex (openFile m e).disk)",
+      "(\"open=\" ++ hex e)",
+      ["C16"], "wire layer: the `open=` token repeats the existing content given on the line instead of openFile's disk"),
 
     # ---- Algebra (C17)
     M("alg-leaf-plus-composite-appends", "Algebra", "QModel/Algebra.lean",
@@ -336,6 +409,31 @@ MUTANTS = [
       "(scatterGet nidx rows k).getD (List.replicate (width t.shape) 0) }",
       "(scatterGet nidx rows k).getD (List.replicate (width t.shape) 1) }",
       ["C19"], "an array only present in the re-inserted atoms is created one-filled instead of zero-filled"),
+    # second pass: connected components computed inside the model (Graph.lean)
+    M("graph-adj-one-direction", "Graph", "QModel/Graph.lean",
+      "pairs.any fun p => (p.1 == i && p.2 == j) || (p.1 == j && p.2 == i)",
+      "pairs.any fun p => (p.1 == i && p.2 == j)",
+      ["C19"], "adjacency not symmetrised: a listed pair (i, j) bonds i to j but not j to i"),
+    M("graph-expand-drops-members", "Graph", "QModel/Graph.lean",
+      "(List.range n).filter fun j => s.any fun i => i == j || adjB pairs i j",
+      "(List.range n).filter fun j => s.any fun i => adjB pairs i j",
+      ["C19"], "one expansion round keeps only the NEIGHBOURS of the set, not the set itself"),
+    M("graph-reach-one-round-short", "Graph", "QModel/Graph.lean",
+      "def reach (n : Nat) (pairs : List (Nat × Nat)) (i : Nat) : List Nat := expandN n pairs n [i]",
+      "def reach (n : Nat) (pairs : List (Nat × Nat)) (i : Nat) : List Nat := expandN n pairs (n - 1) [i]",
+      ["C19"], "n-1 expansion rounds instead of n (a path needs at most n-1 bonds: expected EQUIVALENT, slack of the model)"),
+    M("graph-reach-two-rounds-short", "Graph", "QModel/Graph.lean",
+      "def reach (n : Nat) (pairs : List (Nat × Nat)) (i : Nat) : List Nat := expandN n pairs n [i]",
+      "def reach (n : Nat) (pairs : List (Nat × Nat)) (i : Nat) : List Nat := expandN n pairs (n - 2) [i]",
+      ["C19"], "n-2 expansion rounds: a chain through ALL atoms entered at one end is cut one atom short"),
+    M("graph-seen-not-updated", "Graph", "QModel/Graph.lean",
+      "else reach n pairs i :: compsFrom n pairs rest (reach n pairs i ++ seen)",
+      "else reach n pairs i :: compsFrom n pairs rest seen",
+      ["C19"], "networkx loop: `seen.update(c)` forgotten (every member of a component yields the component again)"),
+    M("graph-components-largest-member-first", "Graph", "QModel/Graph.lean",
+      "compsFrom n pairs (List.range n) []",
+      "compsFrom n pairs (List.range n).reverse []",
+      ["C19"], "components listed in the order of their LARGEST member instead of the smallest (node loop reversed)"),
 
     # ---- Protocol (C20)
     M("proto-cell-notification-unconditional", "Protocol", "QModel/Protocol.lean",
